@@ -2,8 +2,8 @@ package main
 
 import (
 	"fmt"
-	"net/textproto"
 	"go/types"
+	"net/textproto"
 	"sort"
 	"strings"
 )
@@ -254,17 +254,17 @@ type ArrKind struct {
 // VC accumulates declarations, facts and obligations for one function under
 // verification.
 type VC struct {
-	decls    []string
-	declared map[string]bool
-	facts    []string
-	obls     []*Obligation
-	strlits  map[string]string
-	strorder []string
-	warnings []string
-	n        int
-	kinds    map[string]*ArrKind
-	typeTags map[string]int
-	tagOrder []string
+	decls     []string
+	declared  map[string]bool
+	facts     []string
+	obls      []*Obligation
+	strlits   map[string]string
+	strorder  []string
+	warnings  []string
+	n         int
+	kinds     map[string]*ArrKind
+	typeTags  map[string]int
+	tagOrder  []string
 	usedSpecs map[string]bool
 	havocLog  []string // callees whose effect was havoc-everything
 	litNames  map[string]string
@@ -285,15 +285,16 @@ type Obligation struct {
 	Tags   []string
 	Func   string
 	// results
-	Status  string // unsat sat unknown timeout error
-	Solver  string
-	TimeS   float64
-	Model   string
-	Expect  string // "unsat" normally; "sat" for cover/vacuity obligations
-	Known   bool   // listed in known_findings.txt
-	AssumeIdx int  // index of the fact that assumes this obligation after it was checked (-1: none)
-	Approx  bool   // Model comes from the quantifier-free part only
-	Witness map[string]string // source-level names used by the goal -> SMT terms
+	Status    string // unsat sat unknown timeout error
+	Solver    string
+	TimeS     float64
+	Model     string
+	Expect    string            // "unsat" normally; "sat" for cover/vacuity obligations
+	Known     bool              // listed in known_findings.txt
+	AssumeIdx int               // index of the fact that assumes this obligation after it was checked (-1: none)
+	Approx    bool              // Model comes from the quantifier-free part only
+	Witness   map[string]string // source-level names used by the goal -> SMT terms
+	PairOf    string            // call-return cover: name of the cover taken just before the call
 }
 
 func newVC() *VC {
